@@ -115,17 +115,22 @@ func driveObs(args []string) int {
 	traces, seen := 0, 0
 	eachCase(openIn(op), func(raw []byte) {
 		var c struct {
-			Src []int `json:"src"`
+			Src   []int  `json:"src"`
+			Shape string `json:"shape"`
+			N     int    `json:"n"`
 		}
-		if json.Unmarshal(raw, &c) != nil || len(c.Src) == 0 {
+		if json.Unmarshal(raw, &c) != nil || (len(c.Src) == 0 && c.Shape == "") {
 			return
 		}
 		src := bytesOf(c.Src)
+		if c.Shape != "" {
+			src = []byte(scaleSource(c.Shape, c.N))
+		}
 		if !s.note(src, true, raw) {
 			return
 		}
 		seen++
-		if seen%stride != 0 || s.Judged >= max {
+		if c.Shape == "" && (seen%stride != 0 || s.Judged >= max) {
 			return
 		}
 		s.Judged++
@@ -172,13 +177,13 @@ func driveObs(args []string) int {
 		hdr := map[string]any{"e": "reset", "accepted": perr == nil, "dump": []int{}, "src": string(src), "err": vmErrClassS(base.Err)}
 		if perr == nil {
 			var d bytes.Buffer
-			if p.Dump(&d) != nil || d.Len() > 2500 {
+			if p.Dump(&d) != nil || (d.Len() > 2500 && c.Shape == "") || d.Len() > 12000 {
 				return
 			}
 			hdr["dump"] = intsOf(d.Bytes())
 		}
 		_, events, _ := splitObs(allOn.Out)
-		if len(events) > 600 {
+		if len(events) > 600 && c.Shape == "" || len(events) > 6000 {
 			return
 		}
 		enc.Encode(hdr)
